@@ -90,6 +90,7 @@ class Controller:
         self.task = None
         self.build = None
         self.hooks = []  # callables (info) -> coroutine or None, run when an action is released
+        self.quiescent_hooks = []  # async callables run in a quiescent state, before a release
         self.stopped = False
 
     async def gate(self, info):
@@ -145,6 +146,10 @@ class Controller:
                     await asyncio.sleep(0.001)
                 continue
             idle_rounds = 0
+            for hook in self.quiescent_hooks:
+                await hook()
+            if not self.parked:
+                continue
             idx = self.rng.randrange(len(self.parked))
             fut, info = self.parked.pop(idx)
             self.trace.append((info.get("job"), info.get("i"), info.get("a")))
@@ -360,6 +365,25 @@ class SimStep:
             info = await self.rpc("get_step_info")
             b.event("info", job=self.job_i, step=self.label, inp=[str(p) for p in info.inp],
                     out=[str(p) for p in info.out])
+        elif a == "raw":
+            # A hand-made request through the real RPC interface; errors are recorded, not raised.
+            from stepup.core.rpc import SocketAsyncRPCClient
+
+            if self.client is None:
+                self.client = SocketAsyncRPCClient(self.sock)
+            job = action.get("job", self.job_i)
+            b.rpc_in_flight += 1
+            try:
+                res = await self.client(action["name"], job, *action.get("args", []))
+                b.event("raw_done", job=self.job_i, step=self.label, name=action["name"],
+                        args=action.get("args", []), ok=True, result=repr(res)[:200])
+            except Exception as exc:  # noqa: BLE001
+                b.event("raw_done", job=self.job_i, step=self.label, name=action["name"],
+                        args=action.get("args", []), ok=False, error=type(exc).__name__,
+                        usage=isinstance(exc, __import__("stepup.core.exceptions", fromlist=["x"]).UsageError),
+                        message=str(exc)[-3000:])
+            finally:
+                b.rpc_in_flight -= 1
         elif a == "gate":
             pass
         else:
@@ -498,7 +522,12 @@ def install_patches():
         build = _CURRENT["build"]
         if build is not None:
             build.event("phase_start")
-        await orig_job_loop(self)
+            build.in_phase = True
+        try:
+            await orig_job_loop(self)
+        finally:
+            if build is not None:
+                build.in_phase = False
         if build is not None:
             build.event("phase_end", draining=self.scheduler.draining)
             for mon in build.monitors:
